@@ -139,6 +139,39 @@ def check_functor_keys(rep):
             rep.fail('C03:hash.functor_key', 'an equal value is not found as a key: %r' % (e,), repr(key))
 
 
+def check_mixed_and_downgraded(rep):
+    """equal values of mixed classes (rigid objects inside plain monoidal types, PRO of both modules, downgraded diagrams):
+    == symmetric, transitive, and equal values hash alike -- also when one of them was hashed before it was downgraded"""
+    from discopy import rigid as R, monoidal as M
+    x, y = R.Ty('x'), R.Ty('y')
+    vals = [M.Ty('x'), M.Ty(R.Ob('x')), R.Ty('x'), R.Ty('x').downgrade(), M.Ty(cat.Ob('x')), M.Ty('x', 'y'), (x @ y).downgrade(),
+            M.Ty(R.Ob('x'), 'y'), x @ y, M.PRO(2), R.PRO(2), R.PRO(2).downgrade(), M.Ty(1, 1), M.PRO(1), R.PRO(1),
+            R.Box('f', x, y), R.Box('f', x, y).downgrade(), M.Box('f', M.Ty('x'), M.Ty('y')),
+            M.Box('f', M.Ty(R.Ob('x')), M.Ty('y')), R.Id(x).downgrade(), M.Id(M.Ty('x')), R.Id(x),
+            (R.Box('f', x, y) @ R.Id(x)).downgrade(), M.Box('f', M.Ty('x'), M.Ty('y')) @ M.Id(M.Ty(R.Ob('x')))]
+    # hashed first, downgraded afterwards, against the same value downgraded without ever being hashed
+    for mk in (lambda: R.Box('g', x.l, y.r.r), lambda: R.Cup(x, x.r), lambda: R.Cap(x.r, x), lambda: R.Swap(x, y.l),
+               lambda: R.Box('g', x.l, y) @ R.Id(x.r)):
+        a, b = mk(), mk()
+        hash(a)
+        for bx in (getattr(a, 'boxes', [a]) or [a]):
+            hash(bx)
+        vals += [a.downgrade(), b.downgrade()]
+    for i, a in enumerate(vals):
+        rep.case(('mixed', i, repr(a)))
+        for b in vals:
+            ab, ba = a == b, b == a
+            inp = 'mixed: %r (%s.%s) ; %r (%s.%s)' % (a, type(a).__module__, type(a).__name__, b, type(b).__module__, type(b).__name__)
+            if bool(ab) != bool(ba):
+                rep.fail('C03:eq.symmetric', '(a == b) = %r but (b == a) = %r' % (ab, ba), inp)
+            if ab and hash(a) != hash(b):
+                rep.fail('C03:hash.consistent', 'equal values with different hashes', inp)
+            if ab:
+                for c in vals:
+                    if (b == c) and not (a == c):
+                        rep.fail('C03:eq.transitive', 'a == b == c but a != c', inp + ' ; %r' % (c,))
+
+
 def run(tier, seed=0, shard=(0, 1)):
     rep = Report({'values': 'fixed lists of ~25-65 values per family (cat, monoidal incl. all diagrams <= 2 boxes over '
                             '5 boxes, rigid incl. adjoints |z| <= 2, cups, caps, daggers)', 'pairs': 'all', 'triples':
@@ -149,4 +182,5 @@ def run(tier, seed=0, shard=(0, 1)):
         rep.sample('%s: %r' % (name, vals[len(vals) // 2]))
     if shard[0] == 0:
         check_functor_keys(rep)
+        check_mixed_and_downgraded(rep)
     return rep.result()
